@@ -247,4 +247,50 @@ theorem headD_returns (rs : List R) (b : R) :
   | nil => simp [sumL]
   | cons r rs => simp [List.range_succ_eq_map]
 
+theorem length_deltas (disc : R) (T : Nat) (trunc term rew val : List R) (b : R)
+    (h : WF T trunc term rew val) : (deltas disc trunc term rew val b).length = T := by
+  obtain ⟨h0, h1, h2, h3⟩ := h
+  subst h0
+  exact length_tdNext disc trunc term rew val val b h1 h2 h3 h3
+
+/-! ## ring homomorphisms commute with the pieces of the implementation -/
+
+section RingHom
+variable {S : Type} [CommRing S]
+
+theorem tdErr_map (f : R →+* S) (disc : R) (term rew next val mask : List R) :
+    (tdErr disc term rew next val mask).map f
+      = tdErr (f disc) (term.map f) (rew.map f) (next.map f) (val.map f) (mask.map f) := by
+  induction term generalizing rew next val mask with
+  | nil => simp [tdErr]
+  | cons te tes ih =>
+    match rew, next, val, mask with
+    | [], _, _, _ => simp [tdErr]
+    | _ :: _, [], _, _ => simp [tdErr]
+    | _ :: _, _ :: _, [], _ => simp [tdErr]
+    | _ :: _, _ :: _, _ :: _, [] => simp [tdErr]
+    | r :: rs, n :: ns, v :: vs, m :: ms =>
+      have := ih rs ns vs ms
+      simp only [tdErr, List.map_cons, List.zipWith_cons_cons, map_mul, map_sub, map_add, map_one,
+        List.cons.injEq, true_and] at this ⊢
+      exact this
+
+theorem scanRev_map (f : R →+* S) (lam disc acc0 : R) (mask ds term : List R) :
+    f (scanRev lam disc acc0 mask ds term).1
+        = (scanRev (f lam) (f disc) (f acc0) (mask.map f) (ds.map f) (term.map f)).1
+    ∧ (scanRev lam disc acc0 mask ds term).2.map f
+        = (scanRev (f lam) (f disc) (f acc0) (mask.map f) (ds.map f) (term.map f)).2 := by
+  induction mask generalizing ds term with
+  | nil => simp [scanRev]
+  | cons m ms ih =>
+    match ds, term with
+    | [], _ => simp [scanRev]
+    | _ :: _, [] => simp [scanRev]
+    | d :: ds, te :: tes =>
+      have := ih ds tes
+      simp only [scanRev, List.map_cons, map_add, map_mul, map_sub, map_one, this.1, ← this.2,
+        and_self]
+
+end RingHom
+
 end Brax.C19
